@@ -625,14 +625,13 @@ func c09LivePath(c *kit.Ctx, a *c09Anchors, m *storeModel, r5 *kit.Rule, cr *c09
 		if g.Body == nil {
 			continue
 		}
-		ast.Inspect(g.Body, func(n ast.Node) bool {
-			if r, ok := n.(*ast.RangeStmt); ok && r.Value != nil && isPointsOfEdge(g, r) {
-				if o := kit.ObjOf(info, r.Value); o != nil {
+		for _, r := range g.SliceLoops(g.Node()) {
+			if isPointsOfEdge(g, r) {
+				for o := range kit.ElemAliases(info, r) {
 					sc.elems[o] = true
 				}
 			}
-			return true
-		})
+		}
 	}
 	var inner ast.Node = outer
 	isTombLeaf := func(e ast.Expr) (eq bool, ok bool) {
@@ -806,7 +805,7 @@ func c09LivePath(c *kit.Ctx, a *c09Anchors, m *storeModel, r5 *kit.Rule, cr *c09
 			return nil, nil, false
 		}
 		isInner := false
-		if br.Range != outer && br.Range.Value != nil && sc.elems[kit.ObjOf(info, br.Range.Value)] {
+		if br.Range != outer && isPointsOfEdge(fl.cur(), br.Range) {
 			if sel, ok := ast.Unparen(br.Range.X).(*ast.SelectorExpr); ok && fl.obj(sel.X) == edgeVar {
 				isInner = true
 			}
